@@ -4,18 +4,20 @@
 // Worlds: 2-3 peers whose trees use IDENTICAL entity and feature numbers (one template),
 // device addresses distinct, partly equal or all equal, and peers that have not (yet) sent
 // their discovery reply (device address unknown; they subscribe through their node
-// management feature or through entities announced by partial notification).  Every peer
+// management feature or through entities announced by partial notification, name features
+// they have not announced, and may answer late).  Discovery traffic of the repaired code:
+// notifications mixing added and removed entries, replies that omit announced entities or [0].  Every peer
 // subscribes and binds, local client features subscribe/bind to the peers; connections are
 // dropped, re-established and entities announced as removed at arbitrary points; after each
 // teardown a probe block lists every peer's entries, changes the data of every subscribed
 // server feature, queries the client-side bookkeeping and resolves every device.
 //
-// Not generated (see DESIGN.md "As built — C10"): a discovery reply while an entry made
-// through the peer's node-management feature before the reply still exists (the reply
-// rewrites that entry's client address in place, which Model/Stack.v does not describe),
-// a local request to a device address announced by two connected peers (the receiving
-// connection is chosen by map iteration order), a re-announced different device address
-// (only the recorded corpus witness).
+// Not generated (see DESIGN.md "As built — Stack family"): an identical local request repeated
+// on one connection (withheld by the sender's request cache, which Model/Stack.v does not
+// describe), a local request to a device address announced by two connected peers (the
+// receiving connection is chosen by map iteration order), a device-less discovery message that
+// re-creates the features of [0] (the model identifies the node-management feature object by its
+// address), a re-announced different device address (only the recorded corpus witness).
 package main
 
 import (
@@ -57,9 +59,9 @@ type ref struct {
 	addr stack.FAddr
 }
 
-// allowPreNM lifts the restriction on replies after pre-reply node-management entries (used
-// only to validate a proposed change of Model/Stack.v against a scratch driver).
-var allowPreNM = os.Getenv("C10_ALLOW_PRENM") == "1"
+// allowPreNM: a discovery reply may follow registry entries made through the node-management
+// feature before the reply (default; C10_ALLOW_PRENM=0 restores the old restriction).
+var allowPreNM = os.Getenv("C10_ALLOW_PRENM") != "0"
 
 var (
 	statMu sync.Mutex
@@ -149,11 +151,33 @@ func (g *gen) msg(p *peerSt, state int64, ents [][]int64, dev int64) stack.DiscM
 	return m
 }
 
-func (g *gen) reply(p *peerSt) {
-	all := append([][]int64{{0}}, g.rents...)
-	g.add(stack.OpDiscoveryReply(p.ski, g.msg(p, 0, all, p.dev+1)))
+// reply sends a discovery reply of p; with omit, entities announced earlier may be left out
+// (the reply then removes them with their subscriptions and bindings) and so may [0]
+// (which the stack keeps)
+func (g *gen) reply(p *peerSt, omit bool) {
+	listed := [][]int64{}
+	if !omit || g.r.Chance(4, 5) {
+		listed = append(listed, []int64{0})
+	} else {
+		count("replies-omitting-entity-0")
+	}
+	omitted := 0
+	for _, e := range g.rents {
+		if omit && g.r.Chance(1, 3) {
+			if p.ents[ekey(e)] {
+				omitted++
+			}
+			continue
+		}
+		listed = append(listed, e)
+	}
+	if omitted > 0 {
+		count("replies-omitting-announced-entities")
+	}
+	g.add(stack.OpDiscoveryReply(p.ski, g.msg(p, 0, listed, p.dev+1)))
 	p.replied = true
-	for _, e := range all {
+	p.ents = map[string]bool{"[0]": true}
+	for _, e := range listed {
 		p.ents[ekey(e)] = true
 	}
 	g.nmRefs[p.dev] = true
@@ -165,7 +189,7 @@ func (g *gen) connect(p *peerSt) {
 	p.connected, p.replied, p.preNM = true, false, false
 	p.ents = map[string]bool{"[0]": true}
 	if !p.late {
-		g.reply(p)
+		g.reply(p, g.r.Chance(1, 6))
 	} else {
 		count("connections-without-discovery-reply")
 	}
@@ -304,27 +328,34 @@ func genHistory(r *hx.Rng, tier string, i int) []hx.Zs {
 	start := len(g.h)
 	for len(g.h) < start+n {
 		p := g.peers[r.Intn(len(g.peers))]
-		switch r.Pick(22, 10, 8, 6, 6, 4, 8, 7, 4, 4, 3) {
+		switch r.Pick(22, 10, 8, 6, 6, 4, 8, 7, 5, 5, 4, 3) {
 		case 0: // subscribe call
 			if !p.connected {
 				break
 			}
 			srvs := g.servers()
-			if p.replied || len(p.ents) > 1 {
+			if p.replied || len(p.ents) > 1 || r.Chance(1, 8) {
 				var cands []rfeat
+				anyFeature := r.Chance(1, 10) // may name a feature the peer does not (or no longer) announce
 				for _, f := range g.tmpl {
-					if p.ents[ekey(f.ent)] {
+					if p.ents[ekey(f.ent)] || anyFeature {
 						cands = append(cands, f)
 					}
 				}
 				if len(cands) > 0 && len(srvs) > 0 {
 					f := cands[r.Intn(len(cands))]
 					s := srvs[r.Intn(len(srvs))]
-					t := s.typ
+					t := s.typ + 1
 					if r.Chance(1, 12) {
-						t = int64(r.Range(1, 4))
+						t = int64(r.Range(1, 4)) + 1
 					}
-					g.add(stack.OpSubCall(p.ski, g.next(p.ski), r.Bool(), g.raddr(p, f, r.Chance(3, 4)), laddr(s, r.Chance(3, 4)), t+1))
+					if r.Chance(1, 40) {
+						t = 0 // serverFeatureType missing
+					}
+					if !p.replied && !p.ents[ekey(f.ent)] {
+						count("calls-of-address-less-peer-naming-unknown-feature")
+					}
+					g.add(stack.OpSubCall(p.ski, g.next(p.ski), r.Bool(), g.raddr(p, f, r.Chance(3, 4)), laddr(s, r.Chance(3, 4)), t))
 					break
 				}
 			}
@@ -343,8 +374,9 @@ func genHistory(r *hx.Rng, tier string, i int) []hx.Zs {
 				break
 			}
 			var cands []rfeat
+			anyFeature := r.Chance(1, 10)
 			for _, f := range g.tmpl {
-				if p.ents[ekey(f.ent)] {
+				if p.ents[ekey(f.ent)] || anyFeature {
 					cands = append(cands, f)
 				}
 			}
@@ -352,6 +384,9 @@ func genHistory(r *hx.Rng, tier string, i int) []hx.Zs {
 			if len(cands) > 0 && len(srvs) > 0 {
 				f := cands[r.Intn(len(cands))]
 				s := srvs[r.Intn(len(srvs))]
+				if !p.replied && !p.ents[ekey(f.ent)] {
+					count("calls-of-address-less-peer-naming-unknown-feature")
+				}
 				g.add(stack.OpBindCall(p.ski, g.next(p.ski), r.Bool(), g.raddr(p, f, true), laddr(s, true), s.typ+1))
 			}
 		case 2: // local data change
@@ -414,9 +449,7 @@ func genHistory(r *hx.Rng, tier string, i int) []hx.Zs {
 			}
 			f := g.tmpl[r.Intn(len(g.tmpl))]
 			if !p.replied && !p.ents[ekey(f.ent)] {
-				// an unknown client feature named by an address-less peer panics in the error
-				// message (*remoteDevice.Address()): C05's business, not generated here
-				break
+				count("calls-of-address-less-peer-naming-unknown-feature")
 			}
 			s := srvs[r.Intn(len(srvs))]
 			if r.Bool() {
@@ -445,41 +478,77 @@ func genHistory(r *hx.Rng, tier string, i int) []hx.Zs {
 				p.late = r.Chance(1, 4)
 				g.connect(p)
 			}
-		case 8: // entity announced as removed
+		case 8, 9: // partial notification: one to three entries, each with its own state
 			if !p.connected || len(g.rents) == 0 {
 				break
 			}
-			e := g.rents[r.Intn(len(g.rents))]
-			dev := int64(0)
-			if p.replied {
-				dev = p.dev + 1
-			}
-			ents := [][]int64{e}
-			if r.Chance(1, 5) && len(g.rents) > 1 {
-				ents = append(ents, g.rents[r.Intn(len(g.rents))])
-			}
-			g.add(stack.OpDiscoveryNotify(p.ski, g.next(p.ski), r.Bool(), g.msg(p, 2, ents, dev)))
-			for _, x := range ents {
-				delete(p.ents, ekey(x))
-			}
-			count("entity-removals")
-			g.probe()
-		case 9: // entity announced as added (again); address-less peers announce entities this way
-			if !p.connected || len(g.rents) == 0 {
-				break
-			}
-			e := g.rents[r.Intn(len(g.rents))]
 			dev := int64(0)
 			if p.replied {
 				dev = p.dev + 1
 			} else if r.Chance(1, 6) {
-				dev = p.dev + 1 // an address-less connection announcing an entity with a device address
+				dev = p.dev + 1 // an address-less connection announcing entities under a device address
 			}
-			g.add(stack.OpDiscoveryNotify(p.ski, g.next(p.ski), r.Bool(), g.msg(p, 1, [][]int64{e}, dev)))
-			p.ents[ekey(e)] = true
+			n := 1
+			if r.Chance(1, 3) {
+				n = r.Range(2, 3)
+			}
+			m := stack.DiscMsg{Dev: dev}
+			removed, added := 0, 0
+			stopped := false
+			for k := 0; k < n; k++ {
+				e := g.rents[r.Intn(len(g.rents))]
+				state := int64(2)
+				if (k == 0 && n == 1 && r.Chance(1, 3)) || (n > 1 && r.Bool()) {
+					state = 1
+				}
+				if r.Chance(1, 25) && (state == 2 || dev != 0) {
+					// [0]: "removed" is refused (and ends the processing of the message); "added"
+					// re-creates its features, which is only generated with a device address
+					// (Model/Stack.v identifies the node-management feature object by its address)
+					e = []int64{0}
+				}
+				one := g.msg(p, state, [][]int64{e}, dev)
+				m.Ents = append(m.Ents, one.Ents...)
+				m.Feats = append(m.Feats, one.Feats...)
+				if stopped {
+					continue
+				}
+				switch {
+				case state == 2 && len(e) == 1 && e[0] == 0:
+					stopped = true
+					count("notifications-removing-entity-0")
+				case state == 2:
+					if p.ents[ekey(e)] {
+						removed++
+					}
+					delete(p.ents, ekey(e))
+				default:
+					p.ents[ekey(e)] = true
+					added++
+				}
+			}
+			g.add(stack.OpDiscoveryNotify(p.ski, g.next(p.ski), r.Bool(), m))
+			if removed > 0 {
+				count("entity-removals")
+			}
+			if removed > 0 && added > 0 {
+				count("notifications-mixing-added-and-removed")
+			}
+			if removed > 0 {
+				g.probe()
+			}
+		case 10: // a further discovery reply of a connection that has answered already
+			if p.connected && p.replied {
+				g.reply(p, true)
+				count("repeated-discovery-replies")
+				g.probe()
+			}
 		default: // a late discovery reply
 			if p.connected && !p.replied && (!p.preNM || allowPreNM) {
-				g.reply(p)
+				if p.preNM {
+					count("late-replies-after-pre-reply-entries")
+				}
+				g.reply(p, r.Chance(1, 4))
 				count("late-discovery-replies")
 			}
 		}
